@@ -111,4 +111,12 @@ PROPS = {
         'exhaustive_part': 'the 8 combinations of the three option flags',
         'assumptions': [],
     },
+    'C20': {
+        'harness': 'c20',
+        'rule': 'bodies over all 256 byte values: EXHAUSTIVELY every marker (</head, <link, <style, <script) at every transcoded offset 16370..16390 with 0 and 7 high bytes before it (so the original offset differs from the transcoded one), plus generated bodies: tiny and truncated markers, markers in mixed case around the end of the 16 KiB window of the transcoded text with 0-3000 high bytes before them (spread or leading), bodies without marker or with a marker only beyond the window, ordinary documents with 0-5 markers, near-markers (control bytes 0x1c/0x0f, NUL and high bytes inside a marker), "<" noise and high bytes anywhere; one third gzip-encoded, one third with a CSP header; through the verif hook proxy.VerifFilterHTML (Server.filterHTML on a real http.Response); non-trivial = a tag was injected',
+        'correspondence': 'output bytes of filterHTML vs filter_html of the model (given the injection string the implementation built); the harness also compares with the reference computed on the original bytes and checks ContentLength == len(output) and that Content-Encoding is removed',
+        'exhaustive_part': 'marker kind x transcoded offsets 16370..16390 x {0,7} high bytes',
+        'assumptions': ['the injection string is representable in Latin-1 (it is ASCII for every hostname the template can render); gzip, HTTP plumbing and text/template are not modelled: the model sees the decompressed body and the rendered tag'],
+        'shards': 8,
+    },
 }
